@@ -4,9 +4,9 @@ Line protocol driver for C16 (Float instance of the scalar-generic model).
 Floats travel as the decimal value of their IEEE-754 bit pattern (lossless, never printed raw).
 
   sus <x>                                         -> <y> <grad>
-  soh <basis> <T|F|N> <32|64> <start> <end> <number> <x>...   -> ok <row(x1)>... | error:<Name>
+  soh <basis> <T|F|N> <start> <end> <number> <x>...   -> ok <row(x1)>... | error:<Name>
   grid <T|F> <start> <end> <number>               -> <step> <centre_0> ... <centre_{number-1}>
-  sfc <32|64>                                     -> <constant>
+  sfc                                             -> <1.14136 * math.exp(2.0)>
   n2m <cst> <fx>...                               -> <is_id 0|1> <out>...
   cst <fz>...                                     -> <moment2> <cst>
 -/
@@ -15,11 +15,6 @@ open E3nnVerif E3nnVerif.Radial
 def fbits (s : String) : Float := Float.ofBits (UInt64.ofNat s.toNat!)
 def bitsOf (x : Float) : String := toString x.toBits.toNat
 def joinF (l : List Float) : String := " ".intercalate (l.map bitsOf)
-
-/-- `1.14136 * torch.exp(torch.tensor(2.0))` under the float32 default dtype: a float32 product -/
-def sfc32 : Float := ((1.14136 : Float).toFloat32 * Float32.exp 2).toFloat
-
-def sfcOf (dd : String) : Float := if dd == "32" then sfc32 else (smoothFiniteConst : Float)
 
 def errName : Err → String
   | .cutoffUnspecified => "error:ValueError:cutoff"
@@ -32,21 +27,20 @@ def handle (line : String) : String :=
   | ["sus", x] =>
     let x := fbits x
     joinF [softUnitStep x, softUnitStepGrad x]
-  | "soh" :: basis :: cut :: dd :: start :: stop :: number :: xs =>
+  | "soh" :: basis :: cut :: start :: stop :: number :: xs =>
     let cutoff : Option Bool := if cut == "T" then some true else if cut == "F" then some false else none
     let start := fbits start
     let stop := fbits stop
     let number := number.toInt!
-    let sfc := sfcOf dd
     let rec go (xs : List String) (acc : List String) : Except Err (List String) :=
       match xs with
       | [] => .ok acc.reverse
       | x :: rest =>
-        match softOneHot sfc (fbits x) start stop number basis cutoff with
+        match softOneHot (fbits x) start stop number basis cutoff with
         | .error e => .error e
         | .ok row => go rest (joinF row :: acc)
     -- the error branches do not depend on x; probe with one element when the list is empty
-    match (if xs.isEmpty then (softOneHot sfc (0.0 : Float) start stop number basis cutoff).map (fun _ => [])
+    match (if xs.isEmpty then (softOneHot (0.0 : Float) start stop number basis cutoff).map (fun _ => [])
            else go xs []) with
     | .error e => errName e
     | .ok rows => " ".intercalate ("ok" :: rows.filter (· ≠ ""))
@@ -56,7 +50,7 @@ def handle (line : String) : String :=
     let stop := fbits stop
     let n := number.toNat!
     joinF (stepOf start stop n c :: (List.range n).map (center start stop n c))
-  | ["sfc", dd] => bitsOf (sfcOf dd)
+  | ["sfc"] => bitsOf (smoothFiniteConst : Float)
   | "n2m" :: cst :: fxs =>
     let cst := fbits cst
     " ".intercalate ((if isId cst then "1" else "0") :: fxs.map (fun s => bitsOf (normalize2momForward cst (fbits s))))
